@@ -139,8 +139,10 @@ theorem pstep_stale (s : PState) (hd : Dead s.state) (x : List Rune) (i : Inp) :
           have hfree : ∀ a ∈ ((handFn s.state).row (.rune r)).1, interFree a = true := fun a h => (hboth a h).1
           have hnr : ∀ a ∈ ((handFn s.state).row (.rune r)).1, isRet a = false := fun a h => (hboth a h).2
           have hn := runActs_next _ hnr r s [] ((handFn s.state).row (.rune r)).2
-          have hpre : (handFn s.state).pre.contains Act.deferClearIgnoreST = false := by
-            rcases hd with h | h <;> rw [h] <;> decide
+          have hpre : ((handFn s.state).row (.rune r)).1.contains Act.deferClearIgnoreST = false := by
+            rcases hd with h | h <;> rw [h] <;>
+              exact row_forall _ (fun row => row.1.contains Act.deferClearIgnoreST = false) (by decide)
+                (by decide +kernel) r
           have e1 := pstep_plain s r h18 h1a h1b
           have e2 := pstep_plain { s with inter := x } r h18 h1a h1b
           simp only [hpre, Bool.false_eq_true, if_false] at e1 e2
